@@ -65,6 +65,15 @@ def run(ctx):
               '%s|decodes-received-frame' % L, '%s:%s %s' % (SESSION, rc.lineno, L), 'request.read consumes the frame returned by _receive_request',
               'request.read does not decode the received frame')
 
+    # a half-decoded request is never looked at: the arms that handle a failed request.read do not read the request object
+    ctx.rule('C12.R8', 'the except arms of the try that encloses request.read never read the (partially decoded) request object: the error response is built from constants only, so its encoding cannot fail on a half-decoded header')
+    ptry = rn.tries[-1] if rn.tries else None
+    ctx.need(ptry is not None, 'unrecognised construct: request.read is not inside a try')
+    for h in ptry.handlers:
+        uses = [x for st in h.body for x in ast.walk(st) if isinstance(x, ast.Name) and x.id == reqvar and isinstance(x.ctx, ast.Load)]
+        ctx.check(not uses, 'C12.R8', '%s|except %s reads the undecoded request' % (L, ','.join(handler_catches(h))), '%s:%s %s' % (SESSION, h.lineno, L),
+                  'the arm does not touch the request object',
+                  'the arm that handles a failed decode reads %s (line %s): the object is only partially decoded there (fields may be missing or carry unvalidated values), so building or encoding the error response from it can raise outside every try, or echo garbage' % (reqvar, sorted(set(u.lineno for u in uses))))
     # ---------------- R2
     sends = call_nodes(g, 'self._send_response')
     ctx.count('send_sites', len(sends), 1)
